@@ -1049,7 +1049,7 @@ fn mismark(r: &mut Rng, v: &mut Value) {
 /// regression corpus: the inputs on which the monitor found mis-marked or malformed values
 /// before the fix: commits (35ff854, f306b49, eea1d01, ade6601, 60de79d, 9703aa4, e1a3340,
 /// f50d52f, 7af2e92, 3374592, f64950a); replayed first by every search that starts at case 0
-const REGRESSION: [&str; 84] = [
+const REGRESSION: [&str; 86] = [
     "¯\"abc\"",
     "⌊⍆[ℂ5 1.2 ℂ0 1.7]",
     "⌈⍆[ℂ5 1.2 ℂ0 1.7]",
@@ -1141,6 +1141,9 @@ const REGRESSION: [&str; 84] = [
     "⨬(⇌|+) [0] [3 4] 0",
     "⨬(⍆|⨱) [0] [0 0 1 1] 0",
     "≡≡⊢ ⍆ [[[1 9][0 0]] [[1 0][5 5]]]",
+    // round 7 (3ccd0ea): a map made under deshape has a key for each deshaped row
+    "⍜♭(map [1 2 3 4]) [1_2 3_4]",
+    "⍜♭(map [1]◌) ↯0_4 0 [7]",
 ];
 
 static PROGRESS: std::sync::atomic::AtomicU64 = std::sync::atomic::AtomicU64::new(u64::MAX);
